@@ -309,7 +309,8 @@ def replay(rep, verbose=False):
 def jobs(tier):
     q = tier == "quick"
     out = [{"name": "malformed", "target": "checks.c14:job_malformed", "kwargs": {}, "timeout": 120}]
-    for m, c, B in ([(1, 1, 3), (2, 1, 3), (1, 2, 2)] if q else [(1, 1, 5), (2, 1, 4), (1, 2, 3), (2, 2, 2), (3, 1, 2)]):
+    # (1, 1, 7): index values well above / below those of the other list (a cannot-link pair outside the must-link index range)
+    for m, c, B in ([(1, 1, 7), (2, 1, 3), (1, 2, 2)] if q else [(1, 1, 9), (2, 1, 4), (1, 2, 3), (2, 2, 2), (3, 1, 2)]):
         out.append({"name": f"validate/m{m}c{c}B{B}", "target": "checks.c14:job_validate", "kwargs": dict(m=m, c=c, B=B), "timeout": 280 if q else 3000})
     for m, c, B in ([(1, 1, 3), (2, 1, 2)] if q else [(1, 1, 5), (2, 1, 3), (1, 2, 3)]):
         out.append({"name": f"validate-relabelled/m{m}c{c}B{B}", "target": "checks.c14:job_validate", "kwargs": dict(m=m, c=c, B=B, relabel=True), "timeout": 280 if q else 3000})
